@@ -50,6 +50,45 @@ DESC = {
  "C15-3": ("Btpe gets a cached `squeeze` field marked serde(skip)", "Btpe variant with npq > 42: round-tripped value compares unequal"),
  "C15-4": ("KnuthMethod deserialisation validates exp_lambda in (0,1)", "Poisson(1e-17) / Binomial Poisson-limit with exp_lambda == 1.0 fail to deserialise"),
 }
+DESC2 = {
+ "C01-1": ("Exp1 zero_case reuses the base-strip variate u instead of a fresh uniform", "only tail hits (4e-4): [7.70,9.86] never produced, density beyond 8.7x too high"),
+ "C01-2": ("StudentT returns the plain normal variate when dof >= 30", "nu >= 30 only: K-distance 0.5% at 30, 0.15% at 100"),
+ "C01-3": ("LogNormal::from_mean_cv computes mu = ln(mean) - 0.5*sigma instead of - 0.5*sigma^2", "only this constructor with cv != 1.3108 (sigma != 1)"),
+ "C02-1": ("Zipf 's near 1' shortcut: |s-1| < sqrt(eps) uses the s = 1 constants but the true s in the acceptance ratio", "Zipf<f32> with 0.99966 < s < 1.00034, s != 1, large n: CDF off by ~1.2e-3"),
+ "C02-2": ("Binomial BTPE step 5.3 uses |y-m| instead of the signed y-m", "npq > 42 and |y-m| > 20: K-distance 0.4-2.3%"),
+ "C02-3": ("Poisson rejection step Q: fy*(1-u) became fy*u", "lambda >= 12: 3.1% at 12, 0.77% at 300, 0.14% at 1e4"),
+ "C03-1": ("alias construction: leftover 'small' columns no longer clamped", "float weights: index 4294967295 when the second uniform draw is at its maximum"),
+ "C03-2": ("Hypergeometric H2PE left tail: floor moved after the y >= 0 guard", "mode 10-13 (just above the HIN switch): u64::MAX / min(n,K)+1 at ~3e-5 per sample"),
+ "C03-3": ("Binomial BINV restart loop flattened: returns 111 instead of redrawing", "n < 111, BINV branch, uniform draw 1-2^-53"),
+ "C05-1": ("Zeta acceptance test <= rewritten as <", "large s where both sides overflow to inf: f32 s >= 66, f64 s >= 514: acceptance collapses / never returns"),
+ "C05-2": ("Binomial BTPE step 5.0 botched De Morgan", "O(|y-mode|) recurrence for almost every proposal: CPU only, 20 ms per call at n=2^40, > 5 s at 2^62"),
+ "C05-3": ("Poisson c = 0.1069/sqrt(lambda) instead of /lambda", "law unchanged; each visit of the step E/H loop needs ~4 sqrt(lambda) words (>1e5 at lambda = 1e9)"),
+ "C07-1": ("Frechet redraw loop also rejects values not > location", "small shape and non-zero location: extra word and unrelated value in 0.6-3.3% of draws"),
+ "C07-2": ("Pert v,w rewritten with the constant 5 instead of shape+1", "shape != 4 together with min != 0"),
+ "C07-3": ("Pareto sample clamped to MAX after scaling", "heavy tails only (power overflows): f32 shape 0.05, f64 shape ~0.004"),
+ "C08-1": ("alias weight validation as a min/max fold seeded with weights[0]", "NaN at any position other than 0 accepted; new() then panics"),
+ "C08-2": ("alias: clamp of scaled odds to MAX removed", "float weight exactly MAX/len at len 3,6,7,9,12 (f64) plus a second above-average weight: frequencies off by 0.1-0.2"),
+ "C08-3": ("alias clone_from that forgets weight_sum", "clone_from between instances of different total, then weights()"),
+ "C09-1": ("push/update guard !(w >= 0) rewritten as w < 0", "float NaN weight accepted"),
+ "C09-2": ("push: up-front overflow check dropped, failed walk removes the leaf but leaves ancestors incremented", "integer total near MAX and len >= 3"),
+ "C09-3": ("update increase/decrease branches merged through checked_add of a wrapped difference", "unsigned types: every strict decrease panics"),
+ "C10-1": ("try_sample single-weight fast path ahead of the zero-total guard", "len == 1 with a zero weight: Ok(0) instead of InsufficientNonZero"),
+ "C10-2": ("push loses its overflow pre-check", "rejected push near MAX: len grows, phantom index sampled"),
+ "C10-3": ("try_sample guard changed back to total == 0", "float trees zeroed through update with negative residue: panic"),
+ "C11-1": ("gamma-method output floored at F::epsilon()", "small-alpha components of gamma-method vectors: all mass below eps collapses onto eps"),
+ "C11-2": ("pairwise summation helper drops the middle element of odd slices longer than 32", "odd lengths 33..63: samples sum to 1.03-1.15"),
+ "C11-3": ("switch <= 0.1 changed to < 0.1 in Dirichlet::new", "f32, an entry exactly 0.1 with tiny companions: NaN at ~1e-4 per sample"),
+ "C11-4": ("Marsaglia-Tsang constant 0.0331 -> 0.0133", "alpha just above 1 (1.01-1.37)"),
+ "C13-1": ("Cauchy small-angle shortcut angle < eps^(1/4)", "f32 only: 0.59% of the mass right of the median, KS 12 atoms"),
+ "C13-2": ("Frechet powf(-1/shape) became powf(shape).recip()", "any shape != 1"),
+ "C13-3": ("Gumbel redraw loop replaced by a clamp that is a no-op in f32", "f32 all-ones pattern: +inf"),
+ "C14-1": ("WeightedTreeIndex caches the Uniform in a OnceCell; update(0, w) does not drop it", "sample, then update(0,w), then sample on the same object"),
+ "C14-2": ("Dirichlet<f32> gamma method caches a Beta-method fallback in a OnceCell that is part of Debug/PartialEq", "after the first all-underflow draw (1-3 per 1e5) the object no longer equals its earlier clone"),
+ "C14-3": ("Poisson rejection method: polynomial coefficients kept per thread, refreshed only by samples that reach procedure F", "two Poisson objects (lambda >= 12) of one float type on one thread"),
+ "C15-1": ("WeightedTreeIndex re-sums its subtotals on deserialisation", "float trees after update histories: unequal after the round trip"),
+ "C15-2": ("Normal/LogNormal reject a negative standard deviation on load", "std_dev < 0 (documented as valid)"),
+ "C15-3": ("Beta validates 'algorithm matches parameters' against the wrong parameter", "min(a,b) <= 1 < max(a,b); Pert with mode at a bound"),
+}
 res = {}
 for path in ["/tmp/mut/all_results.txt"]:
     if os.path.exists(path):
@@ -89,4 +128,44 @@ for key, (what, needs) in sorted(DESC.items()):
     if key in extra:
         meta["detection_notes"] = extra[key]
     json.dump(meta, open(f"{dst}/meta.json", "w"), indent=1)
-print("seeded dirs:", len(os.listdir("/verif/seeded")))
+# ---- round 2 ----
+res2 = {}
+if os.path.exists("/tmp/mut/all_results_r2.txt"):
+    for l in open("/tmp/mut/all_results_r2.txt"):
+        m = re.match(r"(C\d\d) (\d) rc=(\d+) violations=(\d+) time=(\d+)s :: ?(.*)", l.strip())
+        if m:
+            res2[f"{m.group(1)}-{m.group(2)}"] = {"check": m.group(1), "tier": "quick", "exit": int(m.group(3)), "violation_lines": int(m.group(4)), "wall_s_incl_build": int(m.group(5)), "first_detail": m.group(6)[:300]}
+NOTE2 = {
+ "C02-1": "NOT caught: the changed regime (Zipf<f32>, |s-1| < 3.4e-4, s != 1) lies inside the region of known finding C02-Zipf-s-near-1, where the unchanged tree already deviates grossly; cells there are excluded / reported as KNOWN-FINDING.",
+ "C03-2": "caught after adding an ordinary random-stream phase (1e5 calls per cell) to C03; before that only ~2e4 mostly-random calls per cell were made.",
+ "C08-2": "caught after adding fixed vectors at the per-length type maximum to the sampled set of C08.",
+ "C08-3": "caught by C14 (clone_from action compares weights()), not by C08, which never calls clone_from.",
+ "C14-1": "caught by C10 (states built with sampling between operations; lived-through object vs clone vs fresh build), not by C14, whose objects are immutable. First attempt ended with exit 2: the OnceCell makes the type !Sync and the harness required Sync; the harness now only needs Send + Clone.",
+ "C14-2": "same !Sync problem first; caught after the refactor by the new endurance step (1e5 samples per pool cell, Debug/PartialEq unchanged).",
+}
+for key, (what, needs) in sorted(DESC2.items()):
+    pid, n = key.split("-")
+    src = f"/tmp/seed2/{pid}/out"
+    dst = f"/verif/seeded/R2-{key}"
+    if not os.path.exists(f"{src}/patch{n}.diff"):
+        continue
+    os.makedirs(dst, exist_ok=True)
+    shutil.copy(f"{src}/patch{n}.diff", f"{dst}/patch.diff")
+    shutil.copy(f"{src}/demo{n}.rs", f"{dst}/demo.rs")
+    if pid == "C15" and os.path.exists(f"{src}/demo_proj/Cargo.toml"):
+        shutil.copy(f"{src}/demo_proj/Cargo.toml", f"{dst}/demo_proj_Cargo.toml")
+    conf = open(f"/tmp/confirm/res2_{pid}_{n}.txt").read().strip() if os.path.exists(f"/tmp/confirm/res2_{pid}_{n}.txt") else "not re-run"
+    meta = {
+        "id": f"R2-{key}", "round": 2, "property": pid, "what": what, "needs_to_manifest": needs,
+        "origin": "second round: independent sub-agent that saw only the property text, a scratch worktree and the one-line list of first-round changes to avoid",
+        "confirmed_by_builder": {"how": "scratch worktree of /repo HEAD: git apply patch.diff; cargo test --offline (full existing suite); demo run with the patch (must fail) and without (must pass)", "result": conf},
+        "detection": res2.get(key, {"note": "see DESIGN.md Appendix D"}),
+    }
+    if key in NOTE2:
+        meta["detection_notes"] = NOTE2[key]
+    json.dump(meta, open(f"{dst}/meta.json", "w"), indent=1)
+os.makedirs("/verif/seeded/notes", exist_ok=True)
+for pid in sorted(set(k.split("-")[0] for k in DESC2)):
+    if os.path.exists(f"/tmp/seed2/{pid}/out/NOTES.md"):
+        shutil.copy(f"/tmp/seed2/{pid}/out/NOTES.md", f"/verif/seeded/notes/R2-{pid}-NOTES.md")
+print("seeded dirs:", len([d for d in os.listdir("/verif/seeded") if d != "notes"]))
